@@ -613,7 +613,7 @@ def run(program, rep, tier):
         else:
             rep.ok('C19.on-add', site, text, 'every attach of a handler that '
                    'maps on_add notifies it exactly once', line=line)
-    rep.floor('C19.on-add', 'attach sites of components in World', n_att, 2)
+    rep.floor('C19.on-add', 'attach sites of components in World', n_att, 1)
     # Controller learns its entity through on_add, which it declares with
     # @event_handler: decorating a Controller subclass with further events must
     # not change what Controller (and its other subclasses) declare
